@@ -37,6 +37,7 @@ const (
 	Done
 )
 
+//go:norace
 func (s State) String() string {
 	switch s {
 	case Parked:
@@ -85,11 +86,12 @@ type Task struct {
 	PanicStack string
 	Leaked     []string // locks still held when the task function returned
 	goid       int64
-	Prio       int // free for strategies (PCT)
+	Prio       int  // free for strategies (PCT)
 	Held       bool // not runnable until the harness releases it (fired-but-not-run timer callbacks)
 	BlockNote  string
 }
 
+//go:norace
 func (t *Task) State() State { return State(atomic.LoadInt32((*int32)(&t.state))) }
 
 //go:norace
@@ -153,14 +155,21 @@ type Kernel struct {
 var cur atomic.Pointer[Kernel]
 
 // Cur returns the installed kernel or nil (pass-through mode).
+//
+//go:norace
 func Cur() *Kernel { return cur.Load() }
 
 // New creates a kernel; Install makes it the kernel the vsync wrappers talk to.
+//
+//go:norace
 func New(ch Chooser) *Kernel {
 	return &Kernel{ch: ch, MaxSteps: 200000, Fingerprint: 14695981039346656037, SiteCount: map[string]int{}, start: time.Now()}
 }
 
-func (k *Kernel) Install()   { cur.Store(k) }
+//go:norace
+func (k *Kernel) Install() { cur.Store(k) }
+
+//go:norace
 func (k *Kernel) Uninstall() { cur.CompareAndSwap(k, nil) }
 
 //go:norace
@@ -175,7 +184,7 @@ func (k *Kernel) Aborting() bool { return k.aborting }
 //go:norace
 func (k *Kernel) logf(format string, a ...any) {
 	if k.LogOn {
-		k.Log = append(k.Log, fmt.Sprintf(format, a...))
+		k.Log = Push(k.Log, fmt.Sprintf(format, a...))
 	}
 }
 
@@ -184,6 +193,7 @@ func (k *Kernel) logf(format string, a ...any) {
 //go:norace
 func (k *Kernel) Logf(format string, a ...any) { k.logf(format, a...) }
 
+//go:norace
 func goid() int64 {
 	var buf [64]byte
 	n := runtime.Stack(buf[:], false)
@@ -226,7 +236,7 @@ func (k *Kernel) Me() *Task {
 func (k *Kernel) Spawn(name string, group int, tag any, fn func()) *Task {
 	t := &Task{ID: len(k.tasks), Name: name, Group: group, Tag: tag, wake: make(chan struct{})}
 	t.state = Parked
-	k.tasks = append(k.tasks, t)
+	k.tasks = Push(k.tasks, t)
 	parent := k.running
 	if k.OnSpawn != nil && parent != nil {
 		k.OnSpawn(parent, t)
@@ -256,7 +266,7 @@ func (k *Kernel) taskMain(t *Task, fn func()) {
 		}
 		if len(t.locks) > 0 && !k.aborting {
 			for _, l := range t.locks {
-				t.Leaked = append(t.Leaked, lockName(l))
+				t.Leaked = Push(t.Leaked, lockName(l))
 			}
 			k.aborting = true
 			if k.Fail == nil {
@@ -582,7 +592,7 @@ func (k *Kernel) Wait(w *Waiter) {
 		if k.aborting {
 			panic(abortSentinel{})
 		}
-		w.waiters = append(w.waiters, t)
+		w.waiters = Push(w.waiters, t)
 		t.BlockNote = w.Note
 		t.setState(BlockedWait)
 		k.park(t)
@@ -637,6 +647,7 @@ func (k *Kernel) Perm(kind string, n int) []int {
 	return p
 }
 
+//go:norace
 func lockName(l any) string {
 	switch m := l.(type) {
 	case interface{ LockName() string }:
@@ -645,8 +656,11 @@ func lockName(l any) string {
 	return fmt.Sprintf("%T", l)
 }
 
+//go:norace
 func synctestWait() { synctest.Wait() }
 
 // IsAbort reports whether a recovered panic value is the kernel's abort
 // sentinel (which harness recover() sites must re-panic).
+//
+//go:norace
 func IsAbort(r any) bool { _, ok := r.(abortSentinel); return ok }
